@@ -62,6 +62,12 @@ def config(sc, external):
             cfg["variables"]["mask"] = [True, False, True]
     if method == "differential_evolution":
         cfg["optimizer"]["options"] = {"seed": 3, "popsize": 2, "maxiter": 2}
+    if sc.get("nvars"):            # many variables: every message is larger than the buffer of the pipes
+        n = int(sc["nvars"])
+        cfg["variables"] = {"initial_values": [0.5, 1.5, -0.5] + [0.25] * (n - 3)}
+    if sc.get("redir"):            # the back-end's output redirected to a file (paths inside the configuration)
+        import tempfile
+        cfg["optimizer"].update({"output_dir": tempfile.mkdtemp(prefix="rvc20"), "stdout": "optimizer.out"})
     if sc.get("integer"):          # integer variables: the back-end must be told about them in the child as well
         cfg["variables"]["types"] = [2, 1, 2]
     if sc.get("rich"):             # every optional section is set to something that changes the run when it gets lost
@@ -186,7 +192,8 @@ def extra_scenarios(tier, seed):
         pairs = [{"method": "slsqp", "con": True, "maxfun": 6, "start": [1.0, -1.0, 0.25]}, {"method": "cobyla", "mask": True, "maxfun": 8},
                  {"method": "differential_evolution", "maxfun": 10, "nanAt": 2, "minsucc": 0},
                  {"method": "differential_evolution", "maxfun": 8, "integer": True}, {"method": "slsqp", "maxfun": 6, "rich": True},
-                 {"method": "nelder-mead", "maxfun": 3, "slow": 1.3}]
+                 {"method": "nelder-mead", "maxfun": 3, "slow": 1.3}, {"method": "nelder-mead", "maxfun": 2, "nvars": 3000},
+                 {"method": "slsqp", "maxfun": 4, "redir": True}]
         kills = (-1, 1, 3, 4)
     else:
         kills, methods = (-1, 1, 2, 3, 4, 5, 6), ("slsqp", "cobyla", "differential_evolution")
@@ -198,7 +205,9 @@ def extra_scenarios(tier, seed):
                  {"method": "slsqp", "maxfun": 6, "start": [1.0, -1.0, 0.25]}, {"method": "cobyla", "maxfun": 6, "start": [0.0, 0.5, 1.0], "mask": True},
                  {"method": "differential_evolution", "maxfun": 8, "integer": True}, {"method": "slsqp", "maxfun": 6, "rich": True},
                  {"method": "slsqp", "maxfun": 8, "rich": True, "con": True, "mask": True},
-                 {"method": "nelder-mead", "maxfun": 4, "slow": 1.3}, {"method": "slsqp", "maxfun": 3, "slow": 2.2}]
+                 {"method": "nelder-mead", "maxfun": 4, "slow": 1.3}, {"method": "slsqp", "maxfun": 3, "slow": 2.2},
+                 {"method": "nelder-mead", "maxfun": 2, "nvars": 3000}, {"method": "nelder-mead", "maxfun": 2, "nvars": 20000},
+                 {"method": "slsqp", "maxfun": 4, "redir": True}, {"method": "cobyla", "maxfun": 4, "redir": True, "mask": True}]
     for m in methods:
         for k in kills:
             out.append({"kind": "fault", "fault": "kill", "after": k, "method": m, "maxfun": 12})
